@@ -319,14 +319,9 @@ pub fn timeout_worker(args: &[String]) -> i32 {
                 b.spawn_dfs().join();
             }
             "on_demand" => {
-                let mut c = b.spawn_on_demand();
+                let c = b.spawn_on_demand();
                 c.run_to_completion();
-                // join only the workers: the forwarder thread is not part of this sub-check
-                let mut hs = c.handles();
-                hs.pop();
-                for h in hs {
-                    let _ = h.join();
-                }
+                c.join();
             }
             _ => {
                 b.spawn_simulation(7, stateright::UniformChooser).join();
